@@ -16,6 +16,7 @@ import (
 	"time"
 
 	"github.com/free5gc/openapi/models"
+	"github.com/jlaffaye/ftp"
 	"github.com/free5gc/util/mongoapi"
 	"verif.local/vs"
 )
@@ -328,6 +329,13 @@ func (w *World) execInto(supis []string, h *HistRun, ops []Op, snapFrom int, wit
 			f := reflect.ValueOf(self).Elem().FieldByName("LocalRecordSequenceNumber")
 			f.SetUint(f.Uint() + 1<<32 - 1) // (one record was opened since the session that is still live: 2^32 - 1 more)
 			self.Unlock()
+			st.Resp.Code = 204
+			se = nil
+		case "cgf-drop":
+			// the billing domain's FTP server closes the established control connections (restart, idle time-out)
+			if srv := ftp.MemServers[cgfAddr]; srv != nil {
+				srv.DropConnections()
+			}
 			st.Resp.Code = 204
 			se = nil
 		case "update":
